@@ -48,7 +48,7 @@ def run(ctx):
         yv = [rng.randrange(c) for _ in range(m)]
         case = dict(X=X, y=y, Xv=Xv, yv=yv, model=rng.choice(["knn", "logreg", "rtree", "rtree", "rforest"]) if method in ("bruteforce", "montecarlo") else "knn",
                     joint=(rng.random() < 0.3), method=("neighbor" if method.startswith("neighbor") else method), kw={})
-        seed = rng.randrange(10 ** 6)
+        seed = rng.randrange(10 ** 6) if it % 3 else 0          # 0 is a legitimate seed
         if method == "neighbor" and rng.random() < 0.5:
             nu = rng.randint(2, n)
             g = [rng.randrange(nu) for _ in range(n)]
